@@ -23,6 +23,7 @@ META = {
     "assumptions": ["the metric object is used by one thread at a time"],
     "not_decided": "behaviour of the river metric objects themselves (library code outside /repo)",
 }
+META["explanation"] += " Also COPY (the sign survives copying / pickling) and: no explainer updates the user's metric object outside the wrapper."
 MIN_INSTANCES = {"PAIR": 3, "SIGN": 2, "AGREE": 4, "COPY": 1}
 CLS = "RiverMetricToLossFunction"
 VALIDATOR = "ixai.utils.validators.loss._get_loss_function_from_river_metric"
